@@ -161,6 +161,7 @@ BUILTIN_EXC_PARENT = {
     "StopIteration": "Exception", "TypeError": "Exception", "ValueError": "Exception",
     "UnicodeError": "ValueError", "ImportError": "Exception", "ModuleNotFoundError": "ImportError",
     "Warning": "Exception", "DeprecationWarning": "Warning", "FutureWarning": "Warning", "UserWarning": "Warning",
+    "RuntimeWarning": "Warning", "ResourceWarning": "Warning", "PendingDeprecationWarning": "Warning",
     "MemoryError": "Exception", "SyntaxError": "Exception",
 }
 
@@ -501,6 +502,8 @@ class Ex:
         if isinstance(e.op, ast.Not):
             return VBool(z_not(self.truth(v, fr)))
         if isinstance(e.op, ast.USub):
+            if isinstance(v, VOpaque) and ("neg", v.kind) in self.cfg.lib_overrides:
+                return self.cfg.lib_overrides[("neg", v.kind)](self, v)
             if isinstance(v, VRef) and isinstance(self.st.cell(v), HArr):
                 return self.lib.arr_unary(self, "neg", v)
             return neg(self.cfg, v)
@@ -787,6 +790,9 @@ class Ex:
         return self.binop(e.op, a, b, fr)
 
     def binop(self, op, a, b, fr):
+        for x in (a, b):
+            if isinstance(x, VOpaque) and x.kind == "qty":      # value-carrying boundary object (astropy Quantity contract)
+                return self.lib.opaque_binop(self, op, a, b) if not (isinstance(a, VOpaque) and a.kind != "qty") else self.cfg.lib_overrides[("binop", "qty")](self, op, a, b)
         if self.is_arr(a) or self.is_arr(b):
             return self.lib.arr_binop(self, op, a, b)
         if is_num(a) and is_num(b):
